@@ -38,3 +38,17 @@ def rand_string(rng, maxlen=12, classes=("ascii", "high", "ydia", "tilde", "outs
         c = rng.choice(classes)
         out.append(rng.choice(pools[c]))
     return "".join(out)
+
+
+class MyInt(int):
+    """An int subclass (user code passes IntEnum members, numpy-like ints, bools ... where an int is expected)."""
+
+
+def intlike(rng, v):
+    """Occasionally wrap a non-negative int into another int type with the same value."""
+    r = rng.random()
+    if r < 0.03:
+        return MyInt(v)
+    if r < 0.05 and v in (0, 1):
+        return bool(v)
+    return v
